@@ -14,7 +14,7 @@ Definition covered (d : dstate) (e : N * cmd) : Prop := is_write (snd e) = true 
 
 Lemma run_covers : forall cs d d' r, dapply_all d cs = Some (d', r) -> Forall (covered d') cs.
 Proof.
-  induction cs as [|[i c] cs IH]; intros d d' r H; cbn in H; [constructor|].
+  induction cs as [|[i c] cs IH]; intros d d' r H; cbn [apply_all dapply_all] in H; [constructor|].
   destruct (dapply d i c) as [[d1 res]|] eqn:E; [|discriminate].
   destruct (dapply_all d1 cs) as [[d2 rs]|] eqn:E2; [|discriminate]. inv H.
   constructor; [|eauto].
@@ -53,7 +53,7 @@ Qed.
 
 Lemma run_same_index : forall cs d d' r, dapply_all d cs = Some (d', r) -> d_index d' <= d_index d -> d' = d.
 Proof.
-  induction cs as [|[i c] cs IH]; intros d d' r H Hi; cbn in H; [inv H; reflexivity|].
+  induction cs as [|[i c] cs IH]; intros d d' r H Hi; cbn [apply_all dapply_all] in H; [inv H; reflexivity|].
   destruct (dapply d i c) as [[d1 res]|] eqn:E; [|discriminate].
   destruct (dapply_all d1 cs) as [[d2 rs]|] eqn:E2; [|discriminate]. inv H.
   pose proof (dapply_all_index_mono _ _ _ _ E2).
@@ -146,7 +146,7 @@ Qed.
 Lemma apply_all_vol_ok : forall cs cs' d v d' v' r,
   apply_all (d, v) cs' = Some ((d', v'), r) -> incl cs' cs -> vol_ok cs v -> vol_ok cs v'.
 Proof.
-  induction cs' as [|[i c] cs' IH]; intros d v d' v' r H Hi Hv; cbn in H; [inv H; exact Hv|].
+  induction cs' as [|[i c] cs' IH]; intros d v d' v' r H Hi Hv; cbn [apply_all dapply_all] in H; [inv H; exact Hv|].
   destruct (apply (d, v) i c) as [[[d1 v1] res]|] eqn:E; [|discriminate].
   destruct (apply_all (d1, v1) cs') as [[s2 rs]|] eqn:E2; [|discriminate]. inv H.
   eapply IH; eauto.
@@ -157,7 +157,7 @@ Qed.
 Lemma apply_all_dapply_all : forall cs d v s' r,
   apply_all (d, v) cs = Some (s', r) -> dapply_all d cs = Some (fst s', r).
 Proof.
-  induction cs as [|[i c] cs IH]; intros d v s' r H; cbn in H; [inv H; reflexivity|].
+  induction cs as [|[i c] cs IH]; intros d v s' r H; cbn [apply_all dapply_all] in H; [inv H; reflexivity|].
   destruct (apply (d, v) i c) as [[[d1 v1] res]|] eqn:E; [|discriminate].
   destruct (apply_all (d1, v1) cs) as [[s2 rs]|] eqn:E2; [|discriminate]. inv H.
   apply apply_dapply in E. cbn in E. cbn [dapply_all]. rewrite E. erewrite IH; eauto.
@@ -168,14 +168,15 @@ Lemma dapply_all_apply_all : forall cs cs' d v d' r,
   ck_consistent cs -> verify_not_initial cs -> vol_ok cs v ->
   exists v', apply_all (d, v) cs' = Some ((d', v'), r).
 Proof.
-  induction cs' as [|[i c] cs' IH]; intros d v d' r H Hi Hc Hn Hv; cbn in H; [inv H; cbn; eauto|].
+  induction cs' as [|[i c] cs' IH]; intros d v d' r H Hi Hc Hn Hv; cbn [apply_all dapply_all] in H; [inv H; cbn; eauto|].
   destruct (dapply d i c) as [[d1 res]|] eqn:E; [|discriminate].
   destruct (dapply_all d1 cs') as [[d2 rs]|] eqn:E2; [|discriminate]. inv H.
   assert (Hin : In (i, c) cs) by (apply Hi; now left).
-  destruct (dapply_apply d v i c d1 res E) as [v1 E1].
+  assert (Hver : forall ix ck, c = CVerify ix ck -> d_index d < i -> v_ckidx v = ix -> v_ck v = ck).
   { intros ix ck -> _ Hx. destruct Hv as [-> | (sb & sr & n & Hck)].
     - exfalso. eapply Hn; eauto.
-    - eapply Hc; eauto. }
+    - symmetry. eapply Hc; eauto. }
+  destruct (dapply_apply d v i c d1 res E Hver) as [v1 E1].
   destruct (IH d1 v1 _ _ E2) as [v2 E3]; auto.
   - eapply incl_cons_inv; eauto.
   - eapply apply_vol_ok; eauto.
